@@ -11,6 +11,7 @@ pub mod model;
 pub mod geninst;
 pub mod genmod;
 pub mod refparse;
+pub mod scale;
 pub mod dbgtree;
 pub mod textread;
 pub mod bmodel;
